@@ -99,3 +99,100 @@ pub fn cmd_docf(args: &crate::Args) -> String {
         }
     }
 }
+
+// ---- type-erased, key-sorted dumps to compare toml_edit trees with toml::Value -------------
+fn erased_value(v: &Value) -> String {
+    match v {
+        Value::Array(a) => format!("[{}]", a.iter().map(erased_value).collect::<Vec<_>>().join(",")),
+        Value::InlineTable(t) => {
+            let mut parts: Vec<(String, String)> =
+                t.iter().map(|(k, v)| (hex(k.as_bytes()), erased_value(v))).collect();
+            parts.sort();
+            format!("{{{}}}", parts.iter().map(|(k, v)| format!("{k}={v}")).collect::<Vec<_>>().join(","))
+        }
+        other => show_value(other),
+    }
+}
+
+pub fn erased_table(t: &Table) -> String {
+    let mut parts: Vec<(String, String)> = Vec::new();
+    for (k, it) in t.iter() {
+        let k = hex(k.as_bytes());
+        match it {
+            Item::None => {}
+            Item::Value(v) => parts.push((k, erased_value(v))),
+            Item::Table(s) => parts.push((k, erased_table(s))),
+            Item::ArrayOfTables(a) => {
+                parts.push((k, format!("[{}]", a.iter().map(erased_table).collect::<Vec<_>>().join(","))))
+            }
+        }
+    }
+    parts.sort();
+    format!("{{{}}}", parts.iter().map(|(k, v)| format!("{k}={v}")).collect::<Vec<_>>().join(","))
+}
+
+pub fn erased_toml(v: &toml::Value) -> String {
+    match v {
+        toml::Value::String(s) => format!("s:{}", hex(s.as_bytes())),
+        toml::Value::Integer(i) => format!("i:{i}"),
+        toml::Value::Float(f) => show_f64(*f),
+        toml::Value::Boolean(b) => format!("b:{b}"),
+        toml::Value::Datetime(d) => show_datetime(d),
+        toml::Value::Array(a) => format!("[{}]", a.iter().map(erased_toml).collect::<Vec<_>>().join(",")),
+        toml::Value::Table(t) => {
+            let mut parts: Vec<(String, String)> =
+                t.iter().map(|(k, v)| (hex(k.as_bytes()), erased_toml(v))).collect();
+            parts.sort();
+            format!("{{{}}}", parts.iter().map(|(k, v)| format!("{k}={v}")).collect::<Vec<_>>().join(","))
+        }
+    }
+}
+
+/// `docv`: the serde front end decodes to the same data as the format-preserving parser
+pub fn cmd_docv(args: &crate::Args) -> String {
+    let s = match std::str::from_utf8(&args[0]) {
+        Ok(s) => s,
+        Err(_) => return "not-utf8".into(),
+    };
+    let edit = match toml_edit::ImDocument::parse(s) {
+        Ok(d) => d,
+        Err(_) => return "err".into(),
+    };
+    let tv = match toml::from_str::<toml::Value>(s) {
+        Ok(v) => v,
+        Err(_) => return format!("err-toml edit={}", show_table(edit.as_table())),
+    };
+    let a = erased_table(edit.as_table());
+    let b = erased_toml(&tv);
+    let tt = match s.parse::<toml::Table>() {
+        Ok(t) => erased_toml(&toml::Value::Table(t)),
+        Err(_) => "err".into(),
+    };
+    format!(
+        "ok edit={} same={}",
+        show_table(edit.as_table()),
+        if a == b && a == tt { "yes" } else { "no" }
+    )
+}
+
+/// `rt`: parse, print without edits, re-parse the printed text, print again (C03)
+pub fn cmd_rt(args: &crate::Args) -> String {
+    let s = match std::str::from_utf8(&args[0]) {
+        Ok(s) => s,
+        Err(_) => return "not-utf8".into(),
+    };
+    let d = match s.parse::<toml_edit::DocumentMut>() {
+        Ok(d) => d,
+        Err(_) => return "err".into(),
+    };
+    let p1 = d.to_string();
+    let t1 = show_table(d.as_table());
+    let (reparse, fix) = match p1.parse::<toml_edit::DocumentMut>() {
+        Ok(d2) => (
+            if show_table(d2.as_table()) == t1 { "same" } else { "DIFF" },
+            if d2.to_string() == p1 { "yes" } else { "no" },
+        ),
+        Err(_) => ("ERR", "no"),
+    };
+    format!("ok print={} reparse={} fix={}", hex(p1.as_bytes()), reparse, fix)
+}
